@@ -1260,7 +1260,8 @@ var M = &run.Monitor{
 		"(same / re-escaped / case-folded / numerically equal / text-key-folded name, ill-formed UTF-8 in a name or value) at an object chosen over all objects of the text, " +
 		"with ground truth from the effective target there; 40% of the targets are pre-populated; default options must reject by Unmarshal, UnmarshalRead and UnmarshalDecode; " +
 		"the matching permissive option must accept and equal the default decoding of the ref-merged / U+FFFD-substituted clean text; the unrelated permissive option must still reject; " +
-		"case-variant names that are distinct at the target are controls; marshal: colliding fallback/map/text keys and ill-formed Go strings through 7 wrappers x 3 APIs. " +
+		"case-variant names that are distinct at the target are controls; marshal: colliding fallback/map/text keys and ill-formed Go strings (also as zone names under MST layouts) through 7 wrappers x 3 APIs; " +
+		"wide: structs of 3..300 fields with members in arbitrary order, the colliding pair separated by members of far-away fields, and fallbacks holding the name of a field of any index. " +
 		"distinct = type expression x (target kind, injection kind) x depth x options",
 	Assumptions: []string{
 		"ref parser decides JSON-level duplicates and UTF-8 validity (each case text is re-checked against it); ref.Merge gives the duplicate-free equivalent (C14's law)",
@@ -1288,6 +1289,10 @@ var M = &run.Monitor{
 		need("marshal_collision_rejected", 200)
 		need("marshal_utf8_rejected", 200)
 		need("marshal_permissive_ok", 400)
+		need("wide_duplicates_rejected", 1000)
+		need("wide_controls_accepted", 500)
+		need("wide_permissive_compared", 1500)
+		need("wide_marshal_collision_rejected", 100)
 		return u
 	},
 	SelfTest: selfTest,
@@ -1350,6 +1355,7 @@ func selfTest() error {
 func main() {
 	run.Def(M, "inject", runInj)
 	run.Def(M, "marshal", runMarshal)
+	run.Def(M, "wide", runWide)
 	M.Gen = generate
 	run.Main(M)
 }
@@ -1365,6 +1371,7 @@ var marshalFamilies = []string{"fallmap-field", "fallnamed-field", "fallval-fiel
 var badGo = []string{"a\xffb", "\xc3", "x\xed\xa0\x80", "\xc0\x80z", "é\xff", "\xf4\x90\x80\x80", "q\xe2\x82"}
 
 func generate(w *run.W) {
+	generateWide(w)
 	nb := w.Pick(640, 6400)
 	for b := 0; b < nb; b++ {
 		if !w.Mine(b) {
